@@ -41,6 +41,11 @@ def gen_spec(rnd):
             w_['shell'] = True               # the command goes through /bin/sh -c
         if rnd.random() < .1:
             w_['respawn'] = False            # when its last worker is gone the watcher stops by itself
+        if rnd.random() < .15:
+            # a graceful reload is a SIGHUP to the running workers, which take it as "re-read your configuration" and
+            # go on: nothing was killed, nothing may be announced as killed
+            w_['send_hup'] = True
+            w_['beh'] = [dict(b, **{'1': ['ignore']}) for b in w_['beh']]
     names = [w['name'] for w in ws]
     if rnd.random() < .2:
         # a signal hook that vetoes (false) or fails: the stop signal is withheld, the worker lives through the
